@@ -66,6 +66,7 @@ Fixpoint hyps_all (e : env) (st : state) (ops : list op) : bool :=
       (match o with
        | OBatch ls => hyps_ok e (sfs st) ls
        | OBe paths old new => be_hyps e (sfs st) paths (be_old (sfs st) paths old) new
+       | ORec paths new => rec_hyps e (sfs st) paths new
        | OExpire _ => true
        end)
       && hyps_all e (fst (step_op e st o)) r
@@ -119,6 +120,15 @@ Fixpoint hist_sig (e : env) (fs : fmap) (ops : list op) (obs : list bobs) : Z :=
           if be_hyps e fs paths (be_old fs paths old) new then
             let c := prop_code e fs [be_updaters paths new] ws fin in
             if c =? 0 then hist_sig e fin r obs' else known_shape_be e fs (be_updaters paths new) ws c
+          else 0
+      end
+  | ORec paths new :: r =>
+      match obs with
+      | [] => 0
+      | (ws, fin) :: obs' =>
+          if rec_hyps e fs paths new then
+            let c := prop_code e fs [rec_updaters paths new] ws fin in
+            if c =? 0 then hist_sig e fin r obs' else 0
           else 0
       end
   end.
@@ -201,8 +211,30 @@ Definition decode_leveled (inp : list Z) : case :=
 (* ---------- stream "be" ----------
    input : ver nd par[1..nd-1] start[nd] nops ops...     (directories numbered in walk order)
            op 0 = apply : 0 newset oldflag oldset
-           op 1 = expire: 1 dir how *)
-Fixpoint dec_be_ops (paths : list Z) (n : nat) (l : list Z) : list op :=
+           op 1 = expire: 1 dir how
+           op 2 = recover: 2 newset variant nex ex[nex]
+                  variant 0: recoverCPUSetForBECPUManager — root and pods (depth <= 1) in walk order,
+                             then the containers (depth 2) whose pod is not in ex (pods with a
+                             specified cpuset), in walk order
+                  variant 1: recoverCPUSetIfNeed(container depth) — every directory of depth <= 2
+                  variant 2: recoverCPUSetIfNeed(pod depth) — every directory of depth <= 1 *)
+(* depth of every directory (par[d] < d) *)
+Definition depths (nd : nat) (par : list Z) : list Z :=
+  fold_left (fun ds d => ds ++ [if (d =? 0)%nat then 0 else nth (Z.to_nat (nth (d - 1) par 0)) ds 0 + 1])
+            (seq 0 nd) [].
+
+Definition rec_paths (nd : nat) (par : list Z) (variant : Z) (ex : list Z) : list Z :=
+  let ds := depths nd par in
+  let dirs := map Z.of_nat (seq 0 nd) in
+  let dep d := nth (Z.to_nat d) ds 0 in
+  let parent d := nth (Z.to_nat d - 1) par 0 in
+  if variant =? 0 then
+    filter (fun d => dep d <=? 1) dirs
+    ++ filter (fun d => (dep d =? 2) && negb (existsb (Z.eqb (parent d)) ex)) dirs
+  else if variant =? 1 then filter (fun d => dep d <=? 2) dirs
+  else filter (fun d => dep d <=? 1) dirs.
+
+Fixpoint dec_be_ops (nd : nat) (par : list Z) (paths : list Z) (n : nat) (l : list Z) : list op :=
   match n with
   | O => []
   | S n' =>
@@ -211,12 +243,19 @@ Fixpoint dec_be_ops (paths : list Z) (n : nat) (l : list Z) : list op :=
           if tag =? 0 then
             match t with
             | new :: oldflag :: old :: t' =>
-                OBe paths (if oldflag =? 0 then None else Some old) new :: dec_be_ops paths n' t'
+                OBe paths (if oldflag =? 0 then None else Some old) new :: dec_be_ops nd par paths n' t'
+            | _ => []
+            end
+          else if tag =? 1 then
+            match t with
+            | d :: _ :: t' => OExpire d :: dec_be_ops nd par paths n' t'
             | _ => []
             end
           else
             match t with
-            | d :: _ :: t' => OExpire d :: dec_be_ops paths n' t'
+            | new :: variant :: nex :: t' =>
+                ORec (rec_paths nd par variant (firstn (Z.to_nat nex) t')) new
+                  :: dec_be_ops nd par paths n' (skipn (Z.to_nat nex) t')
             | _ => []
             end
       | [] => []
@@ -230,7 +269,7 @@ Definition decode_be (inp : list Z) : case :=
       let '(start, t2) := take_n (Z.to_nat nd) t1 in
       let paths := map Z.of_nat (seq 0 (Z.to_nat nd)) in
       mkCase (mk_env ver nd 1 par [0]) (mk_fs start)
-             (match t2 with nops :: t3 => dec_be_ops paths (Z.to_nat nops) t3 | [] => [] end)
+             (match t2 with nops :: t3 => dec_be_ops (Z.to_nat nd) par paths (Z.to_nat nops) t3 | [] => [] end)
              (Z.to_nat nd)
   | _ => empty_case
   end.
